@@ -13,12 +13,14 @@ from ..coqrun import cZ, cnat, clist
 from ..gen import c17_exact as X
 from ..gen import c17_nets as G
 from ..gen import c19_adv as ADV
+from ..gen import c19_api as API
+from ..gen import c19_exact as XF
 from .C17 import build, view_of, cnet, _cstr, crcert, ref_matrix
 from ..tok import S as SET
 
 PID = "C19"
 COQ_HEADER = ("From Coq Require Import List NArith ZArith.\nImport ListNotations.\n"
-              "From SK Require Import lib.Tok lib.C17_Farkas model.C17_Model model.C19_Model.\n")
+              "From SK Require Import lib.Tok lib.C17_Farkas model.C17_Model model.C19_Model model.C19_Fast model.C19_Api model.C17_NodeModel model.C19_Nodes.\n")
 SHARD = 250
 IMPL_TIMEOUT = 2400
 COQ_TIMEOUT = 1500
@@ -108,7 +110,32 @@ def _obs(a):
             [su.n_species, su.n_reactions, su.n_complexes, su.n_linkage_classes, su.stoich_rank, su.deficiency, bool(su.weakly_reversible)],
             [int(x) for x in a.linkage_deficiencies],
             True,
-            bool(one["regular"]), bool(a.check_deficiency_zero()), bool(a.check_deficiency_one()), bool(one["hypotheses_satisfied"])]
+            bool(one["regular"]), bool(a.check_deficiency_zero()), bool(a.check_deficiency_one()), bool(one["hypotheses_satisfied"]),
+            _nondeg(a)]
+
+
+def _nondeg(a):
+    """nondegeneracy_test: the two exact outputs — nullity of S^T (the model: n_species - certified rank) and the largest
+    complex size.  Run as a probe on the analyzer (its stored result is put back); shapes of the float part asserted."""
+    from synkit.CRN.Props.deficiency import DeficiencyAnalyzer
+    keep = a._nondegeneracy
+    try:
+        if a._stoich_fn is None:                       # built without a matrix function: the test refuses to run
+            try:
+                a.nondegeneracy_test()
+                raise AssertionError("nondegeneracy_test ran without stoich_fn")
+            except RuntimeError:
+                pass
+            nd = DeficiencyAnalyzer(a._crn).compute_summary().nondegeneracy_test().nondegeneracy_result
+        else:
+            nd = a.nondegeneracy_test().nondegeneracy_result
+            assert a.as_dict().get("nondegeneracy") == nd
+    finally:
+        a._nondegeneracy = keep
+    assert set(nd) == {"nullity", "basis", "per_basis", "largest_relevant_present", "max_complex_size", "tolerance"}, sorted(nd)
+    assert nd["tolerance"] == 1e-9 and len(nd["basis"]) == len(nd["per_basis"]) == nd["nullity"]
+    assert all(len(v) == a.summary.n_species for v in nd["basis"])
+    return [int(nd["nullity"]), int(nd["max_complex_size"])]
 
 
 def _apply_edit(H, e):
@@ -277,6 +304,10 @@ def _analyze_api(case, Xv):
 
 
 def impl(case):
+    if "mut" in case:
+        return _impl_raw(case)
+    if "script" in case:
+        return _impl_script(case)
     if "api" in case:
         H = build(case)
         try:
@@ -296,6 +327,220 @@ def impl(case):
     except ValueError:
         return [2]
     return _obs(a)
+
+
+# ------------------------------------------------------------------ scripts of public API calls on one analyzer (round 5)
+
+_RT = {"compute_summary() must be called before linkage computations.": 1,
+       "compute_summary() must be called before compute_linkage_deficiencies().": 2,
+       "compute_summary() must be called before check_deficiency_zero().": 3,
+       "compute_summary() must be called before check_deficiency_one().": 4,
+       "compute_linkage_deficiencies() must be called before check_deficiency_one().": 5,
+       "compute_summary() must be called before check_regularity().": 6,
+       "nondegeneracy_test requires a stoich_fn to compute S.": 7,
+       "Call compute_summary() before nondegeneracy_test().": 8}
+
+
+def _float_argmax(a):
+    """The float part of nondegeneracy_test that the model does not contain: for every basis vector of the left kernel (numpy SVD
+    of S^T, absolute cut-off 1e-9) the position of its largest absolute entry.  Same numpy calls on the same input as the method
+    itself (deterministic); asserted equal to the method's own per_basis when the method succeeds.  None when S cannot be built."""
+    import numpy as np
+    from synkit.CRN.Hypergraph.conversion import _as_bipartite
+    if a._stoich_fn is None:
+        return None
+    try:
+        N = np.asarray(a._stoich_fn(_as_bipartite(a._crn)), dtype=float)
+    except ValueError:
+        return None
+    n_species = N.shape[0]
+    _U, svals, Vh = np.linalg.svd(N.T, full_matrices=True)
+    zero_idx = [i for i, sv in enumerate(svals) if sv <= 1e-9] + list(range(len(svals), n_species))
+    if n_species - int((svals > 1e-9).sum()) <= 0:
+        return []
+    return [int(np.argmax(np.abs(Vh.T[:, i]))) for i in zero_idx]
+
+
+def _call(a, name):
+    """One public call -> (result / error code, float argmax positions used by it or None)."""
+    mis = _float_argmax(a) if name in ("nondeg", "crn1") else None
+    try:
+        if name == "summary":
+            assert a.compute_summary() is a
+        elif name == "linkage":
+            assert a.compute_linkage_deficiencies() is a
+        elif name == "one":
+            assert a.run_deficiency_one_algorithm() is a
+        elif name == "nondeg":
+            assert a.nondegeneracy_test() is a
+        elif name == "crn0":
+            assert a.compute_crn_deficiency() is a
+        elif name == "crn1":
+            assert a.compute_crn_deficiency(run_nondegeneracy=True) is a
+        elif name == "check0":
+            return [1, bool(a.check_deficiency_zero())], mis
+        elif name == "check1":
+            return [1, bool(a.check_deficiency_one())], mis
+        elif name == "reg":
+            return [1, bool(a.check_regularity())], mis
+        else:
+            raise KeyError(name)
+    except ValueError:
+        return [2], mis
+    except RuntimeError as e:
+        return [3, _RT[str(e)]], mis
+    except IndexError:
+        return [4], mis
+    if name in ("nondeg", "crn1"):
+        assert [p["max_index"] for p in a.nondegeneracy_result["per_basis"]] == mis, (a.nondegeneracy_result, mis)
+    return [0], mis
+
+
+def _some(x):
+    return [x]
+
+
+def _dump(a):
+    """Everything the object stores, read through the public accessors AND the private fields (they must tell one story)."""
+    import networkx as nx
+    d = a.as_dict()
+    su, ld, one, nd = a.summary, a.linkage_deficiencies, a.deficiency_one_structural, a.nondegeneracy_result
+    assert (su is None) == ("deficiency" not in d) == (a._complexes is None) == (a._complex_graph is None) == (a._idx_map is None)
+    assert (ld is None) == ("linkage_deficiencies" not in d) and (one is None) == ("deficiency_one_structural" not in d)
+    assert (nd is None) == ("nondegeneracy" not in d)
+    assert set(d) <= set(_SUMMARY_KEYS) | {"linkage_deficiencies", "deficiency_one_structural", "nondegeneracy"}
+    if su is None:
+        assert a.explain() == "No computations performed yet. Call compute_summary()." and repr(a) == "<DeficiencyAnalyzer deficiency=NA>"
+        o_su = None
+    else:
+        for k in _SUMMARY_KEYS:
+            assert d[k] == getattr(su, k)
+        assert a.explain() == "Deficiency=%s, Linkage-classes=%s, Weakly-reversible=%s" % (su.deficiency, su.n_linkage_classes, su.weakly_reversible)
+        assert repr(a) == "<DeficiencyAnalyzer deficiency=%s>" % su.deficiency
+        CG = a._complex_graph
+        classes = [sorted(c) for c in nx.connected_components(CG.to_undirected())]
+        assert a._idx_map == {tuple(c): k for k, c in enumerate(a._complexes)}
+        assert len(a._complexes) == su.n_complexes == CG.number_of_nodes() and len(classes) == su.n_linkage_classes
+        assert type(a)._is_weakly_reversible(CG) == su.weakly_reversible
+        o_su = _some([[list(map(int, c)) for c in a._complexes], SET([[int(u), int(v)] for u, v in CG.edges()]), [SET(c) for c in classes],
+                      [su.n_species, su.n_reactions, su.n_complexes, su.n_linkage_classes, su.stoich_rank, su.deficiency, bool(su.weakly_reversible)],
+                      True])
+    if ld is not None:
+        assert list(d["linkage_deficiencies"]) == list(ld)
+    o_one = None
+    if one is not None:
+        assert dict(d["deficiency_one_structural"]) == dict(one)
+        assert set(one) == {"hypotheses_satisfied", "deficiency", "linkage_deficiencies", "regular", "conclusion"}
+        assert one["conclusion"].startswith("Deficiency One hypotheses (Feinberg, 1987, 1988) are satisfied") == bool(one["hypotheses_satisfied"])
+        assert one["conclusion"].startswith("Deficiency One hypotheses are not satisfied") == (not one["hypotheses_satisfied"])
+        o_one = _some([bool(one["hypotheses_satisfied"]), int(one["deficiency"]), [int(x) for x in one["linkage_deficiencies"]], bool(one["regular"])])
+    o_nd = None
+    if nd is not None:
+        assert dict(d["nondegeneracy"]) == dict(nd)
+        assert set(nd) == {"nullity", "basis", "per_basis", "largest_relevant_present", "max_complex_size", "tolerance"}, sorted(nd)
+        assert nd["tolerance"] == 1e-9 and len(nd["basis"]) == len(nd["per_basis"])
+        assert all(set(p) == {"max_index", "max_value", "matches_max_complex"} and p["max_value"] == 1.0 for p in nd["per_basis"])
+        o_nd = _some([int(nd["nullity"]), [[int(p["max_index"]), bool(p["matches_max_complex"])] for p in nd["per_basis"]],
+                      bool(nd["largest_relevant_present"]), int(nd["max_complex_size"]), len(nd["basis"]) == nd["nullity"]])
+    return [o_su, _some([int(x) for x in ld]) if ld is not None else None, o_one, o_nd]
+
+
+def _script(case):
+    """Run the script in THIS process on shared objects.  Yields per call (name, index of the network in the edit sequence,
+    hypergraph holding the truth, analyzer, result code, float argmax positions)."""
+    import warnings
+    warnings.filterwarnings("ignore")
+    from synkit.CRN.Props.deficiency import DeficiencyAnalyzer
+    from synkit.CRN.Hypergraph.conversion import hypergraph_to_bipartite
+    H = build(case)
+    view = case.get("view", "hyper")
+    Xv = H if view == "hyper" else hypergraph_to_bipartite(H, integer_ids=(view == "bip_int"), include_edge_id_attr=True)
+    kw = {}
+    if not case["opts"][0]:
+        kw["stoich_fn"] = None
+    if not case["opts"][1]:
+        kw["rank_fn"] = None
+    a = DeficiencyAnalyzer(Xv, **kw)
+    k = 0
+    for s in case["script"]:
+        if s[0] == "e":
+            _apply_edit(H, s[1])
+            if Xv is not H:
+                _apply_edit_bip(Xv, s[1])
+            k += 1
+            continue
+        res, mis = _call(a, s[1])
+        yield s[1], k, H, a, res, mis
+
+
+def _impl_script(case):
+    return [[res, _dump(a)] for _, _, _, a, res, _ in _script(case)]
+
+
+def _coq_script(case):
+    mis_all = [mis for _, _, _, _, _, mis in _script(case)]
+    calls = [s[1] for s in case["script"] if s[0] == "c"]
+    nets = API.networks_at_calls(case)
+    defs, seen = [], {}
+    items = []
+    for name, (k, (rxns, iso)), mis in zip(calls, nets, mis_all):
+        if k not in seen:
+            seen[k] = "x%d" % k
+            defs.append("let x%d : hist_step := (%s) in" % (k, ", ".join(_split_args(_coq_args(dict(rxns=rxns, iso=iso, view="hyper"))))))
+        items.append("(%s, %s, %s)" % (API.COQ_OP[name], seen[k], clist([cnat(i) for i in (mis or [])])))
+    return "(%s run19_ops (Opts %s %s) %s)" % (" ".join(defs), "true" if case["opts"][0] else "false",
+                                              "true" if case["opts"][1] else "false", clist(items))
+
+
+# ------------------------------------------------------------------ raw attributed graphs (identifier / attribute level, round 5)
+
+def _impl_raw(case):
+    """The graph-only answers of the analyzer on a raw bipartite DiGraph (no matrix / rank function: the stoichiometric matrix
+    of a graph with missing roles is another property's business)."""
+    import warnings
+    warnings.filterwarnings("ignore")
+    import networkx as nx
+    from synkit.CRN.Props.deficiency import DeficiencyAnalyzer
+    from synkit.CRN.Props.utils import _species_order
+    Gr = API.raw_graph(case)
+    try:
+        a = DeficiencyAnalyzer(Gr, stoich_fn=None, rank_fn=None).compute_summary()
+    except ValueError:
+        return [2]
+    su, CG = a.summary, a._complex_graph
+    classes = [sorted(c) for c in nx.connected_components(CG.to_undirected())]
+    assert su.stoich_rank == 0 and su.deficiency == su.n_complexes - su.n_linkage_classes
+    return [0, [str(x) for x in _species_order(Gr)[1]], [list(map(int, c)) for c in a._complexes],
+            SET([[int(u), int(v)] for u, v in CG.edges()]), [SET(c) for c in classes],
+            [su.n_species, su.n_reactions, su.n_complexes, su.n_linkage_classes, bool(su.weakly_reversible)],
+            bool(a.check_regularity())]
+
+
+def _copt(x, f):
+    return "None" if x is None else "(Some %s)" % f(x)
+
+
+def _coq_raw(case):
+    """Encode the raw graph: node identifiers become numbers (only their equality matters), str(node) is kept for the label
+    fall-back; int(stoich) is applied here (the model has integer coefficients)."""
+    from ..coqrun import cN
+    Gr = API.raw_graph(case)
+    num = {}
+    for n in Gr.nodes:
+        num[n] = n if isinstance(n, int) and not isinstance(n, bool) and 0 <= n < 10 ** 6 else 10 ** 6 + len(num)
+    kinds = {"species": 0, "reaction": 1}
+    nodes = []
+    for n, d in Gr.nodes(data=True):
+        k = None if "kind" not in d or d["kind"] is None else kinds.get(d["kind"], 2)
+        b = d.get("bipartite")
+        assert b is None or isinstance(b, int)
+        nodes.append("(RNode %s %s %s %s %s)" % (cN(num[n]), _copt(k, cnat), _copt(b, cZ),
+                                                _copt(str(d["label"]) if "label" in d else None, _cstr), _cstr(str(n))))
+    arcs = []
+    for u, v, d in Gr.edges(data=True):
+        ro = {"reactant": "Reactant", "product": "Product"}.get(d.get("role"))
+        arcs.append("(RArc %s %s %s %s)" % (cN(num[u]), cN(num[v]), _copt(ro, str), _copt(int(d["stoich"]) if "stoich" in d else None, cZ)))
+    return "run19_nodes (RG %s %s)" % (clist(nodes), clist(arcs))
 
 
 # ------------------------------------------------------------------ reference structures from the case alone
@@ -362,16 +607,20 @@ def _coq_args(case):
     if n == 0:
         return "%s %s %s []" % (cnet(case), clist([_cstr(z) for z in case.get("iso", [])]),
                                 crcert(dict(r=0, A=[], B=[], A2=[], B2=[], d=1)))
-    rc = X.rank_cert(S, m, n)
+    rc = XF.rank_cert(S, m, n)
     _, cx, arcs, classes = ref_complexes(case)
     ccs = []
     for cl in classes:
         D = class_diffs(cx, arcs, cl)
-        ccs.append(crcert(X.rank_cert(D, len(D), m)))
+        ccs.append(crcert(XF.rank_cert(D, len(D), m)))
     return "%s %s %s %s" % (cnet(case), clist([_cstr(z) for z in case.get("iso", [])]), crcert(rc), clist(ccs))
 
 
 def coq_case(case):
+    if "mut" in case:
+        return _coq_raw(case)
+    if "script" in case:
+        return _coq_script(case)
     if "edits" in case:
         steps = []
         for rxns, iso in ADV.apply_edits2(case["rxns"], case["edits"], case.get("iso", [])):
@@ -379,7 +628,7 @@ def coq_case(case):
             st = "(%s)" % ", ".join(_split_args(a))
             steps.append("(%s, %s)" % (cnat(case.get("style", 0)), st))
         return "run19_sm %s" % clist(steps)          # the staged state machine: per step re-used analyzer (route = style), new analyzer
-    return "run19 " + _coq_args(case)
+    return "run19f " + _coq_args(case)          # = run19 (C19_fast_eval)
 
 
 def _split_args(a):
@@ -405,6 +654,10 @@ def _split_args(a):
 # ------------------------------------------------------------------ property oracle
 
 def oracle(case):
+    if "mut" in case:
+        return _oracle_raw(case)
+    if "script" in case:
+        return _oracle_script(case)
     if "edits" in case:
         return _oracle_history(case)
     H = build(case)
@@ -416,6 +669,82 @@ def oracle(case):
             return [dict(clause="complexes", detail="analysis raised ValueError on a network with reactions: %s" % e)]
         return []
     return _oracle_on(a, H, case)
+
+
+def _oracle_raw(case):
+    """Raw graphs: the network a graph with missing / odd attributes denotes is defined by the reading rules themselves, so most
+    of these cases are correspondence-only.  Independent of the attribute rules: whatever complexes and arcs were built, the
+    linkage classes are the connected components of the complex graph and weak reversibility is strong connectivity of every
+    component (own closure code); an unmutated export must give the answers of the hypergraph."""
+    o = _impl_raw(case)
+    if o == [2]:
+        return []
+    fails = []
+    n = len(o[2])
+    arcs = [tuple(x) for x in o[3]["__set__"]]
+    und, fwd = {}, {}
+    for u, v in arcs:
+        und.setdefault(u, set()).add(v)
+        und.setdefault(v, set()).add(u)
+        fwd.setdefault(u, set()).add(v)
+    comps, seen = [], set()
+    for k in range(n):
+        if k not in seen:
+            c = _reach(und, k)
+            seen |= c
+            comps.append(c)
+    if [sorted(c) for c in comps] != [sorted(c["__set__"]) for c in o[4]] or o[5][3] != len(comps) or o[5][2] != n:
+        fails.append(dict(clause="raw-linkage", detail="classes %r, components of the complex graph %r" % (o[4], comps)))
+    wr = all(all(c <= _reach(fwd, u) for u in c) for c in comps)
+    if wr != o[5][4]:
+        fails.append(dict(clause="raw-weakly-reversible", detail="weakly_reversible=%r, reference %r" % (o[5][4], wr)))
+    if len({tuple(c) for c in o[2]}) != n:
+        fails.append(dict(clause="raw-complexes", detail="duplicate complex in %r" % (o[2],)))
+    if case["mut"] == ["none"]:
+        ref = impl(dict(kind="raw-ref", rxns=case["rxns"], iso=case.get("iso", []), view="hyper"))
+        if _plain(ref[1:4]) != _plain(o[2:5]):
+            fails.append(dict(clause="raw-export", detail="export %r, hypergraph %r" % (_plain(o[2:5]), _plain(ref[1:4]))))
+    return fails
+
+
+def _oracle_script(case):
+    """Scripts of public calls.  The object answers for the network as it was at its last compute_summary (the methods are
+    documented as stages on top of compute_summary).  Judged after EVERY call:
+    (1) whatever summary / class deficiencies the object reports satisfy the property for THAT network (in particular they
+        belong to one network: the class deficiencies never sum to more than the deficiency reported next to them);
+    (2) after a successful compute_crn_deficiency the object equals a brand-new analyzer on a freshly BUILT current network.
+    rank_fn=None is outside the property (rank := 0 by design): correspondence only."""
+    if not case["opts"][1]:
+        return []
+    fails = []
+    nets = ADV.apply_edits2(case["rxns"], [s[1] for s in case["script"] if s[0] == "e"], case.get("iso", []))
+    last_su, snap_k = None, None
+    for j, (name, k, H, a, res, _mis) in enumerate(_script(case)):
+        if a._summary is not last_su:                       # a compute_summary ran inside this call: it read the CURRENT network
+            last_su, snap_k = a._summary, k
+        if a._summary is None:
+            if any(x is not None for x in (a.linkage_deficiencies, a.deficiency_one_structural, a.nondegeneracy_result)):
+                fails.append(dict(clause="script-derived-without-summary", detail="call %d (%s): derived results stored without a summary" % (j, name)))
+            continue
+        step = dict(kind="script-step", rxns=nets[snap_k][0], iso=nets[snap_k][1], view="hyper")
+        Hs = build(step)
+        for f in _oracle_on(a, Hs, step, partial=True):
+            fails.append(dict(clause="script-" + f["clause"], detail="call %d (%s; network of the last compute_summary = after %d edits): %s"
+                              % (j, name, snap_k, f["detail"])))
+        one = a.deficiency_one_structural
+        if one is not None and (one["deficiency"] != a.summary.deficiency or list(one["linkage_deficiencies"]) != list(a.linkage_deficiencies or [])):
+            fails.append(dict(clause="script-one-coherent", detail="call %d (%s): deficiency_one_structural %r next to deficiency %r, class deficiencies %r"
+                              % (j, name, one, a.summary.deficiency, a.linkage_deficiencies)))
+        if name in ("crn0", "crn1") and res == [0]:
+            cur = dict(kind="script-step", rxns=nets[k][0], iso=nets[k][1], view="hyper")
+            fresh = impl(cur)
+            same = _obs(a)
+            if _plain(fresh) != _plain(same):
+                fails.append(dict(clause="script-stale-state", detail="call %d (%s): the re-used analyzer answers %r, a freshly built network gives %r"
+                                  % (j, name, _plain(same), _plain(fresh))))
+        if fails:
+            break
+    return fails[:4]
 
 
 def _oracle_history(case):
@@ -449,7 +778,7 @@ def _plain(o):
     return o
 
 
-def _oracle_on(a, H, case):
+def _oracle_on(a, H, case, partial=False):
     """The property, checked on the answers stored in analyzer [a] against an independent reference computed from the
     hypergraph H (the network [a] is supposed to describe)."""
     fails = []
@@ -519,6 +848,8 @@ def _oracle_on(a, H, case):
     for comp in classes:
         D = [[b - x for x, b in zip(y, yp)] for (y, yp) in set(pairs) if y in comp and yp in comp and y != yp]
         ref_ld.append(len(comp) - 1 - X.rank_frac(D))
+    if partial and a.linkage_deficiencies is None:      # the stage has not been run (scripts): nothing is reported
+        return fails[:4]
     ld = [int(x) for x in (a.linkage_deficiencies or [])]
     if sorted(ld) != sorted(ref_ld):
         bad("linkage-deficiencies", "linkage deficiencies %r, reference %r" % (ld, ref_ld))
@@ -533,7 +864,7 @@ def _oracle_on(a, H, case):
 
 
 def shrink(case, fl):
-    if "edits" in case:
+    if "edits" in case or "script" in case or "mut" in case:
         return case
     cur = dict(case)
     cur.pop("delta", None)
@@ -564,7 +895,7 @@ def shrink(case, fl):
 
 
 def neighbours(case, rng):
-    if "edits" in case:
+    if "edits" in case or "script" in case or "mut" in case:
         return []
     out = []
     for k in range(len(case["rxns"])):
@@ -580,6 +911,10 @@ def _last(case, obs):
 
 
 def nontrivial(case, obs):
+    if "mut" in case:
+        return isinstance(obs, list) and len(obs) > 2 and len(obs[2]) >= 2
+    if "script" in case:
+        return isinstance(obs, list) and any(isinstance(o, list) and len(o) == 2 and o[1][0] and len(o[1][0][0][0]) >= 2 for o in obs)
     obs = _last(case, obs)
     return isinstance(obs, list) and len(obs) > 4 and len(obs[1]) >= 2
 
@@ -589,13 +924,26 @@ def distribution(cases, obss):
     err = 0
     ldpos = 0
     big = hist = 0
+    scripts, calls, raw = 0, {}, 0
     for c, o in zip(cases, obss):
+        if "mut" in c:
+            raw += 1
+            continue
+        if "script" in c:
+            scripts += 1
+            if isinstance(o, list) and all(isinstance(x, list) and len(x) == 2 for x in o):
+                for (res, _d), sc in zip(o, [x for x in c["script"] if x[0] == "c"]):
+                    k = "%s:%s" % (sc[1], {0: "ok", 1: "bool", 2: "ValueError", 3: "RuntimeError", 4: "IndexError"}.get(res[0], "?"))
+                    calls[k] = calls.get(k, 0) + 1
+            else:
+                err += 1
+            continue
         o = _last(c, o)
         if "edits" in c:
             hist += 1
         if len({x for _, _, l, r in c["rxns"] for x, _ in l + r}) >= 10:
             big += 1
-        if not (isinstance(o, list) and len(o) == 11):
+        if not (isinstance(o, list) and len(o) == 12):
             err += 1
             continue
         s = o[4]
@@ -607,7 +955,8 @@ def distribution(cases, obss):
         if any(x > 0 for x in o[5]):
             ldpos += 1
     return dict(n_complexes=nc, n_linkage_classes=nl, deficiency=dl, weakly_reversible=wr, regular=reg,
-                some_class_deficiency_positive=ldpos, errors=err, histories=hist, at_least_10_species=big)
+                some_class_deficiency_positive=ldpos, errors=err, histories=hist, at_least_10_species=big,
+                api_scripts=scripts, api_script_calls=calls, raw_graphs=raw)
 
 
 # ------------------------------------------------------------------ generators
@@ -634,7 +983,9 @@ def gen_cases(tier, rng):
     cases += ADV.same_shape_histories(rng, nrand=40 if tier == "quick" else 400)
     cases += ADV.degenerate(rng)
     cases += ADV.api_surface(rng)
-    cases += ADV.large(rng, sizes=(24,) if tier == "quick" else (24, 32))
+    cases += API.fixed() + API.random_scripts(rng, 120 if tier == "quick" else 1500)
+    cases += API.raw_cases(rng, 60 if tier == "quick" else 1500)
+    cases += ADV.large(rng, sizes=(24, 100) if tier == "quick" else (24, 40, 64, 100, 128))
     cases += ADV.multi_class(rng, count=24 if tier == "quick" else 240)
     cases += ADV.ill_conditioned(rng, count=24 if tier == "quick" else 240)
     cases.append(dict(kind="degenerate", rxns=[], iso=[], view="hyper"))
